@@ -10,7 +10,7 @@ Record case := mkCase {
                                    9 ethereum 10 ftp 11 http 12 https 13 ipp 14 ldap 15 memcached 16 ntp
                                    17 redis 18 smtp 19 snmp 20 ssh-auth 21 ssh-simulator 22 telnet 23 tftp 24 vnc *)
   c_udp : bool;
-  c_stream : N;                 (* 1 dialogue 2 truncated 3 mutated 4 raw 5 corpus 6 ssh dialogue 7 ipp body *)
+  c_stream : N;                 (* 1 dialogue 2 truncated 3 mutated 4 raw 5 corpus 6 ssh dialogue 8 tftp load *)
   c_conns : list conn;          (* per connection: the writes (tcp) / datagrams (udp) *)
   c_ssh : list (N * bytes);     (* ssh dialogue: channel requests (type code, payload) *)
   c_sshchan : N;                (* 0 session, 1 direct-tcpip, 2 forwarded-tcpip, 3 other *)
